@@ -54,6 +54,9 @@ def _geoms(tier):
              tbase=1 << 55, dbase=GB4, only=[B.U, B.Z, B.N, B.A]),
         dict(cb=12, ver=3, W=3, at="0", alpha="V3", layout="l1_first", cut=0, hl=112, only=[B.U, B.N, B.C, B.I]),
         dict(cb=12, ver=2, W=3, at="0", alpha="V2", layout="l1_first", cut=0, v2="fmt+backing", backing="shorter"),
+        # compressed clusters byte-packed back to back (several start in the same 512-byte host sector), as qemu-img -c writes
+        dict(cb=12, ver=3, W=4, at="0", alpha="V3", layout="l1_first", cut=0, hl=112, only=[B.U, B.N, B.C], pack=True),
+        dict(cb=16, ver=3, W=3, at="straddle", alpha="V3", layout="l2_first", cut=0, hl=112, only=[B.Z, B.C], pack=True),
         # the disk ends exactly where the coverage of the last L1 entry ends and the buffer is larger than what is left
         dict(cb=9, ver=3, W=3, at="end", alpha="V3", layout="l1_first", cut=100, hl=112, bufs=[65536], only=[B.U, B.Z, B.N]),
     ]
@@ -233,7 +236,7 @@ def _case_std(case, ctx):
             bfmt = "raw"
     img, dimg = B.build(states, slots, cb, g["ver"], size, at, total, layout=g["layout"], table_base=g.get("tbase"),
                         data_base=g.get("dbase"), backing_name=bname, backing_format=bfmt, header_length=g.get("hl", 112),
-                        data_file=bool(g.get("datafile")), comp=comp, extensions=exts)
+                        data_file=bool(g.get("datafile")), comp=comp, extensions=exts, comp_pack=bool(g.get("pack")))
     parent = RawDisk.__new__(RawDisk) if False else None
     backing_fh = None
     if bn is not None:
